@@ -141,7 +141,7 @@ Proof.
   intros ev Hev. induction cs as [|[c b] cs IH]; intros st r st' H T; cbn in H.
   - inv H. apply ext_refl.
   - destruct (ev c st) as [o st1] eqn:E. destruct o.
-    + destruct (is_nil v).
+    + destruct (is_nil (prim v)).
       * eapply ext_trans; [eapply Hev; eauto with c07 | eapply IH; eauto].
       * eapply ext_trans; [eapply Hev; eauto with c07 | eapply m_seq_frame; eauto].
     + inv H. eapply Hev; eauto.
@@ -194,13 +194,11 @@ Proof.
     + (* CallList *)
       destruct (m_args (meval defs n sc tb) args [] st) as [[o|vs] st1] eqn:E; inv H;
         eapply m_args_frame; eauto; exact I.
-    + (* Progn *)
-      destruct (m_args (meval defs n sc tb) body [] st) as [[o|vs] st1] eqn:E; inv H;
-        eapply m_args_frame; eauto; exact I.
+    + (* Progn *) eapply m_seq_frame; eauto.
     + (* When *)
       destruct (meval defs n sc tb f st) as [o st1] eqn:E. destruct o; try solve [inv H; eapply IH; eauto].
       assert (X : ext st st1) by (eapply IH; eauto with c07).
-      destruct (is_nil v); [inv H; exact X | eapply ext_trans; [exact X | eapply m_seq_frame; eauto]].
+      destruct (is_nil (prim v)); [inv H; exact X | eapply ext_trans; [exact X | eapply m_seq_frame; eauto]].
     + (* Cond *) eapply m_cond_frame; eauto.
     + (* Let *)
       destruct (m_args (meval defs n sc tb) inits [] st) as [[o|vs] st1] eqn:E.
